@@ -218,6 +218,15 @@ class Normalizer:
                 coll = strip_adapters(args[0])
                 while coll[0] == "call" and isinstance(coll[1], str) and last(coll[1]) in ("as_slice", "as_ref", "to_vec", "clone") and len(coll[2]) == 1:
                     coll = coll[2][0]
+                unit = lambda x: x[0] == "ctor" and not x[2] and isinstance(x[1], str)           # noqa: E731
+                needle = args[1]
+                while needle[0] == "call" and isinstance(needle[1], str) and last(needle[1]) in CLONES and len(needle[2]) == 1:
+                    needle = needle[2][0]
+                if coll[0] in ("array", "vec") and coll[1] and all(unit(x) for x in coll[1]) and len(coll[1]) <= 16:
+                    # membership in a table of field-less variants: decided for a known variant, a pattern test otherwise
+                    if unit(needle):
+                        return ("lit", any(x[1].split("::")[-2:] == needle[1].split("::")[-2:] for x in coll[1]))
+                    return self.rewrite(("matches", needle, ("or", tuple(("var", x[1], (), None) for x in coll[1]))))
                 if coll[0] in ("array", "vec") and coll[1] and all(x[0] == "lit" for x in coll[1]) and len(coll[1]) <= 12:
                     # membership in a table of literals is a disjunction of equalities
                     acc = None
@@ -660,8 +669,10 @@ class Normalizer:
                 return ("collect", src[1], body)
             return t
         if k == "payload":
-            # closure parameter of an Option / Result combinator
-            return ("proj", t[1], SOME, 0) if True else t
+            # closure parameter of an Option / Result combinator (written as the Some-payload, whichever of the two types it is)
+            if t[1][0] == "ctor" and last(t[1][1]) in ("Ok", "Some") and len(t[1][2]) == 1:
+                return t[1][2][0]
+            return ("proj", t[1], SOME, 0)
         if k == "proj":
             base, variant, idx = t[1], t[2], t[3]
             if base[0] == "hof" and base[1] in ("find",) and last(variant) == "Some" and idx == 0 \
@@ -867,6 +878,8 @@ class Normalizer:
                 return self.proj(b2, OK if w2 == "ok" else SOME, 0)
         if base[0] == "ctor" and last(base[1]) == last(variant) and isinstance(idx, int) and idx < len(base[2]):
             return base[2][idx]
+        if base[0] == "ctor" and last(base[1]) == "Ok" and last(variant) == "Some" and idx == 0 and len(base[2]) == 1:
+            return base[2][0]           # the closure parameter of a Result combinator is written as a Some-payload
         if base[0] == "hof" and base[1] == "filter" and last(variant) == "Some" and idx == 0 and self.is_option_hof(base):
             return self.proj(base[2], variant, idx)
         if base[0] == "hof" and base[1] == "map" and last(variant) in ("Some", "Ok") and idx == 0 and self.is_option_hof(base):
@@ -881,8 +894,13 @@ class Normalizer:
                 return self.proj(b, variant, idx)
             if other(b) and not other(a):
                 return self.proj(a, variant, idx)
-        if base[0] == "ite" and last(variant) in ("Some", "Ok", "Err") and idx == 0 and self.is_variant_tree(base) and \
-                any(y[0] == "ite" for y in (base[2], base[3])):
+        def ok_leaves_are_options(y):
+            if y[0] == "ite":
+                return ok_leaves_are_options(y[2]) and ok_leaves_are_options(y[3])
+            return last(y[1]) != "Ok" or (len(y[2]) == 1 and y[2][0][0] == "ctor" and last(y[2][0][1]) in ("Some", "None"))
+        if base[0] == "ite" and idx == 0 and self.is_variant_tree(base) and any(y[0] == "ite" for y in (base[2], base[3])) and \
+                (last(variant) == "Some" or (last(variant) == "Ok" and ok_leaves_are_options(base))):
+            # (only for Option: the Err leaves of a Result are outcomes that the rules look at, with their conditions)
             # a nested case split over constructors: the payload of the cases that are of this variant (the others cannot be the value)
             def payload(y):
                 if y[0] == "ite":
